@@ -102,13 +102,24 @@ func (g *cappedCIDGen) ConnectionIDLen() int { return 4 }
 
 const serverIdle = 90 * time.Second
 
-func runOneSimLimit(c simLimCase) (fails []monFail, info string) {
+func runOneSimLimit(c simLimCase) (fails []monFail, info string, simcase string) {
 	var mu sync.Mutex
 	fail := func(key, desc string) {
 		mu.Lock()
 		fails = append(fails, monFail{key, desc})
 		mu.Unlock()
 	}
+	// the history as events of the C12 game (coq terms) with what was observed of the client
+	var hist []string
+	var codes []int64
+	rec := func(ev string, code int64) {
+		mu.Lock()
+		hist = append(hist, ev)
+		codes = append(codes, code)
+		mu.Unlock()
+	}
+	var kvTerm string
+	conformant := c.Kind != kIdleMs
 	var infos []string
 	note := func(f string, a ...any) {
 		mu.Lock()
@@ -212,6 +223,19 @@ func runOneSimLimit(c simLimCase) (fails []monFail, info string) {
 		}
 		note("wire: max_data=%d sd=%d/%d/%d streams=%d/%d cid=%d dgram=%d idle=%v", adv.InitialMaxData, adv.StreamDataBidiLocal, adv.StreamDataBidiRemote,
 			adv.StreamDataUni, adv.MaxBidiStreams, adv.MaxUniStreams, adv.ActiveConnectionIDLimit, adv.MaxDatagramFrameSize, time.Duration(adv.MaxIdleTimeout))
+		dgv := adv.MaxDatagramFrameSize
+		if dgv < 0 {
+			dgv = 0
+		}
+		kvTerm = fmt.Sprintf("[(1, %d); (4, %d); (5, %d); (6, %d); (7, %d); (8, %d); (9, %d); (14, %d); (32, %d)]", adv.MaxIdleTimeout/1e6, adv.InitialMaxData, adv.StreamDataBidiLocal,
+			adv.StreamDataBidiRemote, adv.StreamDataUni, adv.MaxBidiStreams, adv.MaxUniStreams, adv.ActiveConnectionIDLimit, dgv)
+		var pto3 time.Duration
+		if captured != nil {
+			_, pto3 = quic.VerifAdvEnfIdleDeadlineOf(captured)
+		}
+		silence := func(d time.Duration, code int64) {
+			rec(fmt.Sprintf("(EvSilence %d %d %d)", int64(d), int64(serverIdle), int64(pto3)), code)
+		}
 		// cross-checks with the unit level (same spec/config constructed directly)
 		if captured != nil {
 			simLimCrossCheck(c, captured, adv, fail)
@@ -300,6 +324,18 @@ func runOneSimLimit(c simLimCase) (fails []monFail, info string) {
 				}
 			}
 			note("plan: %d streams, %d bytes of %d", len(plan), total-rem, total)
+			for i := 0; i < len(plan); {
+				j := i
+				for j < len(plan) && plan[j] == plan[i] {
+					j++
+				}
+				ty, n := 2, plan[i]
+				if n < 0 {
+					ty, n = 1, -n
+				}
+				rec(fmt.Sprintf("(EvFresh %d %d %d)", ty, j-i, n), 0)
+				i = j
+			}
 			for _, n := range plan {
 				n := n
 				drive(func() {
@@ -325,6 +361,7 @@ func runOneSimLimit(c simLimCase) (fails []monFail, info string) {
 					note("OpenUniStream: %v", err)
 					return
 				}
+				rec(fmt.Sprintf("(EvData 2 %d)", min64(adv.StreamDataUni, adv.InitialMaxData)), 0)
 				writeN(s, min64(adv.StreamDataUni, adv.InitialMaxData))
 			})
 		case kSDBidiRemote:
@@ -334,6 +371,7 @@ func runOneSimLimit(c simLimCase) (fails []monFail, info string) {
 					note("OpenStream: %v", err)
 					return
 				}
+				rec(fmt.Sprintf("(EvData 1 %d)", min64(adv.StreamDataBidiRemote, adv.InitialMaxData)), 0)
 				writeN(s, min64(adv.StreamDataBidiRemote, adv.InitialMaxData))
 			})
 		case kSDBidiLocal:
@@ -348,6 +386,7 @@ func runOneSimLimit(c simLimCase) (fails []monFail, info string) {
 				if err != nil {
 					return
 				}
+				rec(fmt.Sprintf("(EvData 0 %d)", min64(adv.StreamDataBidiLocal, adv.InitialMaxData)), 0)
 				writeN(s, min64(adv.StreamDataBidiLocal, adv.InitialMaxData))
 			})
 		case kStreamsUni, kStreamsBidi:
@@ -377,6 +416,13 @@ func runOneSimLimit(c simLimCase) (fails []monFail, info string) {
 				openedStreams, wantStreams = opened, want
 				mu.Unlock()
 				note("opened %d streams (advertised %d)", opened, want)
+				ty := 1
+				if c.Kind == kStreamsUni {
+					ty = 2
+				}
+				if opened > 0 {
+					rec(fmt.Sprintf("(EvFresh %d %d 1)", ty, opened), 0)
+				}
 			})
 		case kStreamsUniDone, kStreamsBidiDone:
 			// k streams of the peer are completed first (the peer finishes them, the application reads
@@ -431,6 +477,17 @@ func runOneSimLimit(c simLimCase) (fails []monFail, info string) {
 				note("the client's application did not get the %d finished streams", k)
 			}
 			time.Sleep(time.Second) // MAX_STREAMS reaches the peer
+			{
+				ty, kk := 1, "KSB"
+				if uni {
+					ty, kk = 2, "KSU"
+				}
+				rec(fmt.Sprintf("(EvFresh %d %d 4)", ty, k), 0)
+				synctest.Wait()
+				if v := quic.VerifAdvEnfOutgoingMaxStreams(sconn, uni); v > want {
+					rec(fmt.Sprintf("(EvGrant %s %d)", kk, v), v)
+				}
+			}
 			if !verdict(conn, "after the peer's first streams were completed") {
 				break
 			}
@@ -459,9 +516,19 @@ func runOneSimLimit(c simLimCase) (fails []monFail, info string) {
 				}
 				mu.Unlock()
 				note("opened %d streams in total, %d of them completed before (advertised %d)", opened, k, want)
+				if opened > k {
+					ty := 1
+					if uni {
+						ty = 2
+					}
+					rec(fmt.Sprintf("(EvFresh %d %d 1)", ty, opened-k), 0)
+				}
 			})
 		case kCID:
 			waitLimit = 2 * time.Second
+			if n := min64(int64(adv.ActiveConnectionIDLimit), 6) - 1; n > 0 {
+				rec(fmt.Sprintf("(EvCID %d)", n), 0) // what the in-tree server issues by itself
+			}
 		case kCIDRotate:
 			// The in-tree server never sets Retire Prior To, so the harness makes its connection ID
 			// generator do what a peer may do (RFC 9000 5.1.1): issue IDs until the client stores as
@@ -470,6 +537,13 @@ func runOneSimLimit(c simLimCase) (fails []monFail, info string) {
 			// retirement never exceeds the advertised limit.
 			waitLimit = time.Second
 			time.Sleep(time.Second) // the client's own post-handshake rotation has happened
+			if n := min64(int64(adv.ActiveConnectionIDLimit), 6) - 1; n > 0 {
+				rec(fmt.Sprintf("(EvCID %d)", n), 0)
+				synctest.Wait()
+				if a, q := quic.VerifAdvEnfCIDState(conn); a != 0 {
+					rec("EvRetireCID", int64(1+q))
+				}
+			}
 			limit := int(adv.ActiveConnectionIDLimit)
 			step := func(what string, n int, retire uint64, drop int) bool {
 				synctest.Wait()
@@ -490,6 +564,11 @@ func runOneSimLimit(c simLimCase) (fails []monFail, info string) {
 				time.Sleep(500 * time.Millisecond)
 				synctest.Wait()
 				a2, q2 := quic.VerifAdvEnfCIDState(conn)
+				if retire > 0 {
+					rec(fmt.Sprintf("(EvCIDRotate %d)", retire), 0)
+				} else if n > 0 {
+					rec(fmt.Sprintf("(EvCID %d)", n), 0)
+				}
 				note("%s: %d NEW_CONNECTION_ID (retire_prior_to %d); client used seq %d with %d spare, now seq %d with %d spare (advertised limit %d)", what, n, rpt, active, queued, a2, q2, limit)
 				return verdict(conn, what)
 			}
@@ -516,6 +595,7 @@ func runOneSimLimit(c simLimCase) (fails []monFail, info string) {
 				err := sconn.SendDatagram(make([]byte, n))
 				if err == nil {
 					note("sent a DATAGRAM with %d bytes of payload", n)
+					rec(fmt.Sprintf("(EvDgramEnc true %d)", n), 0)
 					dgramSent = int(n)
 					break
 				}
@@ -536,6 +616,11 @@ func runOneSimLimit(c simLimCase) (fails []monFail, info string) {
 				silent := time.Since(e.Start) - last
 				if silent >= idleExpect-time.Second || conn.Context().Err() != nil {
 					note("path silent for %v (expected idle timeout %v)", silent, idleExpect)
+					if conn.Context().Err() != nil {
+						silence(silent, 4096)
+					} else {
+						silence(silent, 0)
+					}
 					break
 				}
 				time.Sleep(250 * time.Millisecond)
@@ -582,6 +667,9 @@ func runOneSimLimit(c simLimCase) (fails []monFail, info string) {
 						judged = true // giving up is expected now, only its time is judged
 						silent := time.Since(e.Start) - lastToClient
 						note("second phase: the client gave up %v after the last packet it was sent (%v)", silent, context.Cause(conn.Context()))
+						// the packet took the link latency (5 ms) to arrive: the client's own silence is that much shorter
+						silence(silent-6*time.Millisecond-time.Duration(0), 0)
+						silence(silent, 4096)
 						if silent < idleExpect-10*time.Millisecond {
 							fail(c.key(), fmt.Sprintf("the client gave up the connection after %v of silence, before the idle timeout %v its peer derives from the advertised value", silent, idleExpect))
 						}
@@ -633,13 +721,40 @@ func runOneSimLimit(c simLimCase) (fails []monFail, info string) {
 				}
 			}
 		}
+		// the observation for the model: the client's end state goes with the last event (idle scenarios
+		// record theirs themselves)
+		if code, _ := quic.VerifAdvEnfClassify(context.Cause(conn.Context())); code != 0 && c.Kind != kIdleMs {
+			mu.Lock()
+			if len(codes) > 0 {
+				var ie *quic.IdleTimeoutError
+				if errors.As(context.Cause(conn.Context()), &ie) {
+					code = 4096
+				}
+				codes[len(codes)-1] = code
+			}
+			mu.Unlock()
+		}
 		closeAll()
 		<-doneCh
 	})
 	if err != nil {
 		fail("simlimits/leak-or-panic", err.Error())
 	}
-	return fails, strings.Join(infos, "; ")
+	if kvTerm != "" {
+		cc := simLimClientConf(c.Cfg)
+		dg := 0
+		if cc.EnableDatagrams {
+			dg = 1
+		}
+		var ps []string
+		for i := range hist {
+			ps = append(ps, fmt.Sprintf("(%s, %d)", hist[i], codes[i]))
+		}
+		simcase = fmt.Sprintf("(SimCase %v %s [%d; %d; %d; %d; %d; %d; %d; %d] %v [%s])", c.Client != "plain", kvTerm, cc.InitialStreamReceiveWindow,
+			cc.MaxStreamReceiveWindow, cc.InitialConnectionReceiveWindow, cc.MaxConnectionReceiveWindow, cc.MaxIncomingStreams, cc.MaxIncomingUniStreams, dg,
+			int64(cc.MaxIdleTimeout), conformant, strings.Join(ps, "; "))
+	}
+	return fails, strings.Join(infos, "; "), simcase
 }
 
 // advOfClient: the advertised limits of a client as the unit level reads them (direct
@@ -755,12 +870,14 @@ func runSimLimits(w *bufio.Writer, seed uint64, n int, args []string) {
 			continue
 		}
 		t0 := time.Now()
-		fails, info := runOneSimLimit(c)
+		fails, info, simcase := runOneSimLimit(c)
 		nt := 0
 		if len(fails) > 0 {
 			nt = 1
 		}
-		fmt.Fprintf(w, "CASE %d %s\n", nt, c.String())
+		if simcase != "" {
+			fmt.Fprintf(w, "CASE %d %s\n", nt, simcase)
+		}
 		dist["kind="+kindNames[c.Kind]]++
 		dist["config="+c.Cfg]++
 		if len(fails) > 0 {
